@@ -273,6 +273,10 @@ def run(ctx):
     # which session objects a search can see depends on the (slot, session) they were booked under and on the session whose close removes them
     from rules import c11
     c11.r6_store_key(ctx, prog, rule_id='C19.R6')
+    from rules import c03, c15
+    c03.r3_lastclose(ctx, prog, rule_id='C19.R7')
+    c03.r7_table_scans(ctx, prog, rule_id='C19.R7b')
+    c15.r1_chain(ctx, prog, rule_id='C19.R8')
 
 
 MUTANTS = [
